@@ -80,6 +80,9 @@ pub fn parse(data: &[u8]) -> Result<(), String> {
     let (kind, raw, choices, neg) = decode(data, c05::NCHOICES);
     let neg = if neg < 128 { 0 } else { 1 + (neg - 128) % speller::PERTURBS.len() as u32 };
     let b = speller::build(kind, raw, &choices, neg);
+    if tokenize(&b.picture).is_none() {
+        return Ok(()); // generator produced a picture the reference rejects: not a test case
+    }
     c05::check_parse(b.kind, &b.picture, &b.text, b.expect)
 }
 
@@ -87,7 +90,11 @@ pub fn parse(data: &[u8]) -> Result<(), String> {
 pub fn roundtrip(data: &[u8]) -> Result<(), String> {
     let (kind, raw, choices, _) = decode(data, 64);
     let (toks, _) = c06::lossless_picture(kind, raw, &choices);
-    c06::check_roundtrip(kind, raw, &crate::gen::spell_all(&toks))
+    let pic = crate::gen::spell_all(&toks);
+    if tokenize(&pic).is_none() {
+        return Ok(()); // generator produced a picture the reference rejects: not a test case
+    }
+    c06::check_roundtrip(kind, raw, &pic)
 }
 
 pub fn by_name(target: &str, data: &[u8]) -> Option<Result<(), String>> {
